@@ -77,7 +77,7 @@ func refDurationBound(d time.Duration) string {
 }
 
 func c18Jobs(tier string) []*SeqJob {
-	names := []string{"a", "a.b", ""}
+	names := []string{"a", "a.b", "", "disk.used%", "100%sure", "a%%b"}
 	rates := []float32{0, 0.1, 0.5, 1}
 	counters := varintAlphabet()
 	gauges := []float64{0, 0.5, -0.5, 1.5, -1.5, 1e18, -1e18, 9223372036854774784, -9223372036854774784, 0.999999, -0.999999}
@@ -156,6 +156,7 @@ func c18Jobs(tier string) []*SeqJob {
 	L := tierInt(tier, 3, 4)
 	va, da := c03ValueAlphabet(), c03DurationAlphabet()
 	va = append(va, 16777217, 16777216, 0.1, 100.1, 1e9+1)
+	hname := "h"
 	bucketCase := func(kind string, prec uint, idx []int, viaScope bool) (string, string) {
 		st := &recStatter{}
 		rep := tstatsd.NewReporter(st, tstatsd.Options{HistogramBucketNamePrecision: prec})
@@ -193,11 +194,11 @@ func c18Jobs(tier string) []*SeqJob {
 			}
 		}
 		for _, b := range pairs {
-			want = append(want, "h."+b.lo+"-"+b.hi)
+			want = append(want, hname+"."+b.lo+"-"+b.hi)
 		}
 		if viaScope {
 			root, _ := tally.VerifNewRootScope(tally.ScopeOptions{Reporter: rep, OmitCardinalityMetrics: true}, 0, 1)
-			h := root.Histogram("h", buckets)
+			h := root.Histogram(hname, buckets)
 			// one sample per bucket, in bucket order: the upper bound of each bucket
 			if kind == "value" {
 				for _, u := range refValueUppers(buckets.(tally.ValueBuckets)) {
@@ -213,9 +214,9 @@ func c18Jobs(tier string) []*SeqJob {
 		} else {
 			for _, pr := range tally.BucketPairs(buckets) {
 				if kind == "value" {
-					rep.ReportHistogramValueSamples("h", tags, buckets, pr.LowerBoundValue(), pr.UpperBoundValue(), 3)
+					rep.ReportHistogramValueSamples(hname, tags, buckets, pr.LowerBoundValue(), pr.UpperBoundValue(), 3)
 				} else {
-					rep.ReportHistogramDurationSamples("h", tags, buckets, pr.LowerBoundDuration(), pr.UpperBoundDuration(), 3)
+					rep.ReportHistogramDurationSamples(hname, tags, buckets, pr.LowerBoundDuration(), pr.UpperBoundDuration(), 3)
 				}
 			}
 		}
@@ -276,6 +277,13 @@ func c18Jobs(tier string) []*SeqJob {
 					if kind == "duration" && prec > 1 {
 						break
 					}
+					// names with printf verbs for a few precisions only
+					hname = "h"
+					if prec == 3 {
+						hname = "disk.used%"
+					} else if prec == 4 {
+						hname = "100%sure.%d"
+					}
 					for _, via := range []bool{false, true} {
 						if via && prec != 0 && prec != 2 {
 							continue
@@ -315,6 +323,12 @@ func c18Jobs(tier string) []*SeqJob {
 		var via bool
 		fmt.Sscan(ops[1], &prec)
 		fmt.Sscan(ops[2], &via)
+		hname = "h"
+		if prec == 3 {
+			hname = "disk.used%"
+		} else if prec == 4 {
+			hname = "100%sure.%d"
+		}
 		var idx []int
 		for _, o := range ops[3:] {
 			var k int
